@@ -72,8 +72,7 @@ Fixpoint paths_below (p : path) (t : tree) {struct t} : list path :=
   match t with Node kids => kids_paths paths_below p kids 0%nat end.
 Definition all_paths (t : tree) : list path := [] :: paths_below [] t.
 
-Fixpoint size (t : tree) : nat :=
-  match t with Node kids => S ((fix go (ks : list tree) : nat := match ks with [] => O | k :: r => (size k + go r)%nat end) kids) end.
+Fixpoint size (t : tree) : nat := match t with Node kids => S (list_sum (map size kids)) end.
 
 (* ---- program shapes used by the correspondence ---- *)
 Fixpoint regular (shape : list nat) : tree :=
